@@ -156,6 +156,7 @@ type Options struct {
 
 // New creates the relay, the parties, the listener and the dialer.
 func New(o Options) (*Session, error) {
+	installLinkTap()
 	s := &Session{Relay: relay.New(), Rec: trace.New(), Host: "relay.test:443",
 		handed: map[string][]*Conn{}, accepts: make(chan *Conn, 64),
 		sidName: map[string]string{}, Patience: o.Patience}
